@@ -758,6 +758,62 @@ impl Family for AfterLongData {
     }
 }
 
+/// inline values of the first executions of a statement that was prepared after another
+/// statement's long data was abandoned (CLOSE with data pending, or a re-PREPARE of the same id):
+/// nothing of the abandoned data may be delivered, and the inline bytes must be consumed as such
+struct AfterAbandonedLongData;
+impl Family for AfterAbandonedLongData {
+    fn ambient(&self, idx: u64) -> u64 {
+        crate::engine::rot(idx)
+    }
+    fn name(&self) -> String {
+        "inline-after-abandoned-long-data".into()
+    }
+    fn len(&self) -> u64 {
+        3 * 2 * LONG_SIZES.len() as u64
+    }
+    fn run(&self, idx: u64, st: &mut Stats) -> Result<(), Violation> {
+        st.nontrivial += 1;
+        st.bump("after_abandoned_long_data");
+        let d = digits(idx, &[3, 2, LONG_SIZES.len() as u64]);
+        let size = LONG_SIZES[d[2] as usize];
+        let which = d[1] as u16;
+        let streamed: Vec<u8> = (0..size).map(|i| b'S' + (i % 7) as u8).collect();
+        let p = |wire: Option<Vec<u8>>, ty: u8| ExecParam { ty, unsigned: false, wire, long: false };
+        let inline = vec![p(Some(vec![3, b'x', b'y', b'z']), 0xfc), p(Some(vec![7, 0, 0, 0]), 0x03)];
+        let mut payloads = vec![with_byte(COM_STMT_PREPARE, b"id=1 p=2"), cmd_long(1, which, &streamed)];
+        // 0: CLOSE, PREPARE the same id; 1: CLOSE, PREPARE another id; 2: re-PREPARE without CLOSE
+        let id = match d[0] {
+            0 => {
+                payloads.push(cmd_close(1));
+                payloads.push(with_byte(COM_STMT_PREPARE, b"id=1 p=2"));
+                1
+            }
+            1 => {
+                payloads.push(cmd_close(1));
+                payloads.push(with_byte(COM_STMT_PREPARE, b"id=2 p=2"));
+                2
+            }
+            _ => {
+                payloads.push(with_byte(COM_STMT_PREPARE, b"id=1 p=2"));
+                1
+            }
+        };
+        payloads.push(cmd_execute(id, 0, 1, &exec_block(&inline, true)));
+        payloads.push(cmd_execute(id, 0, 1, &exec_block(&inline, false)));
+        super::registry::run_payloads(&payloads, &[], st).map(|_| ()).map_err(|mut v| {
+            v.key = format!("after-abandoned-long-data:{}", v.key);
+            v
+        })
+    }
+    fn describe(&self, idx: u64) -> J {
+        let d = digits(idx, &[3, 2, LONG_SIZES.len() as u64]);
+        let then = ["CLOSE, PREPARE the same id", "CLOSE, PREPARE another id", "re-PREPARE the same id"][d[0] as usize];
+        let bytes = LONG_SIZES[d[2] as usize];
+        json!({"abandoned_bytes": bytes, "abandoned_parameter": d[1], "then": then, "history": "prepare(2), long data, <then>, execute (all inline, bind), execute (all inline, reuse)"})
+    }
+}
+
 pub fn build(quick: bool) -> Check {
     let mut families: Vec<Box<dyn Family>> = vec![
         Box::new(Values::new(quick)),
@@ -771,6 +827,7 @@ pub fn build(quick: bool) -> Check {
             big: if quick { vec![63, 64, 65, 255, 256, 300, 65529, 65535] } else { vec![63, 64, 65, 255, 256, 300, 4096, 32767, 32768, 65527, 65528, 65529, 65530, 65534, 65535] },
         }),
         Box::new(AfterLongData),
+        Box::new(AfterAbandonedLongData),
         Box::new(ExecHeader),
     ];
     if !quick {
@@ -779,12 +836,12 @@ pub fn build(quick: bool) -> Check {
     Check {
         id: "C08",
         level: "model_checking",
-        rule: "COM_STMT_EXECUTE parameter blocks built from semantic values by the independent encoder and run through the real run_on; the shim records (type, raw inner value) and applies the documented Into<T> for the corresponding Rust type under catch_unwind. Domains: TINY, SHORT, YEAR exhaustive (signed and unsigned); LONG/INT24/LONGLONG over every 2^k, 2^k+-1 and the bounds; FLOAT/DOUBLE lattices incl. subnormals and infinities; byte strings of every length 0..300 and the length-class edges for all 14 string-like type codes, 65535..65537 (and around 2^24 in thorough); every legal length form of DATE/DATETIME/TIMESTAMP (0,4,7,11; DATE with a time part raw only) and TIME (0,8,12) over boundary calendar values, every month with its first/28th/last days in five years, every hour x five day counts, microseconds of every decimal shape; negative TIME raw only; all 26 type codes (MYSQL_TYPE_NULL among them) x unsigned in four position classes next to every other type; consecutive executions of one statement binding every ordered pair of (type, unsigned) tables (one parameter: all 52^2, and all 52^2 with the executions alternating between two statements of the same shape - 1:T1, 2:T2, 1:T2, 2:T1; two parameters: all 12^4 over the integer codes, thorough: all 52^4 over every code; triples 12^3), values with the top bit set; parameter counts 0..17, 63, 64, 65, 255, 256, 300, 65529, 65535 (thorough: more around 2^15 and 2^16) with all 2^n NULL bitmaps for n <= 12 (8 in quick) and structured ones above; inline executions that follow an execution fed by 0..1.2 MB of long data; every value of the flags byte x iteration counts {0,1,2,2^32-1} x 5 handshake variants (among them one that mentions every capability the server did not offer). Oracle: exactly n parameters, type = bound code, raw value = encoded value, conversion = encoded value (zero dates and negative TIME have no chrono/Duration form and are checked raw).".into(),
+        rule: "COM_STMT_EXECUTE parameter blocks built from semantic values by the independent encoder and run through the real run_on; the shim records (type, raw inner value) and applies the documented Into<T> for the corresponding Rust type under catch_unwind. Domains: TINY, SHORT, YEAR exhaustive (signed and unsigned); LONG/INT24/LONGLONG over every 2^k, 2^k+-1 and the bounds; FLOAT/DOUBLE lattices incl. subnormals and infinities; byte strings of every length 0..300 and the length-class edges for all 14 string-like type codes, 65535..65537 (and around 2^24 in thorough); every legal length form of DATE/DATETIME/TIMESTAMP (0,4,7,11; DATE with a time part raw only) and TIME (0,8,12) over boundary calendar values, every month with its first/28th/last days in five years, every hour x five day counts, microseconds of every decimal shape; negative TIME raw only; all 26 type codes (MYSQL_TYPE_NULL among them) x unsigned in four position classes next to every other type; consecutive executions of one statement binding every ordered pair of (type, unsigned) tables (one parameter: all 52^2, and all 52^2 with the executions alternating between two statements of the same shape - 1:T1, 2:T2, 1:T2, 2:T1; two parameters: all 12^4 over the integer codes, thorough: all 52^4 over every code; triples 12^3), values with the top bit set; parameter counts 0..17, 63, 64, 65, 255, 256, 300, 65529, 65535 (thorough: more around 2^15 and 2^16) with all 2^n NULL bitmaps for n <= 12 (8 in quick) and structured ones above; inline executions that follow an execution fed by 0..1.2 MB of long data, and the first inline executions of a statement prepared after 0..1.2 MB of another statement's long data was abandoned (CLOSE or re-PREPARE, same or other id); every value of the flags byte x iteration counts {0,1,2,2^32-1} x 5 handshake variants (among them one that mentions every capability the server did not offer). Oracle: exactly n parameters, type = bound code, raw value = encoded value, conversion = encoded value (zero dates and negative TIME have no chrono/Duration form and are checked raw).".into(),
         assumptions: vec!["wider integer, float and string domains are covered at lattices".into()],
         bounds: json!({"all_bitmaps_up_to_params": if quick {8} else {12}}),
         exhaustive: true,
         caps_hit: vec![],
         families,
-        required: vec!["execute_header_cases", "rebinds_changing_only_flags", "values_bound", "microsecond_forms", "second_bitmap_byte", "after_long_data"],
+        required: vec!["execute_header_cases", "rebinds_changing_only_flags", "values_bound", "microsecond_forms", "second_bitmap_byte", "after_long_data", "after_abandoned_long_data"],
     }
 }
